@@ -526,17 +526,18 @@ func judgeCtx(cases []CtxCase) []vdrv.Verdict {
 			vs[i] = vdrv.Skip("reference-timeout")
 			continue
 		}
-		if mayCompareFunctionSource(c.Code) {
-			vs[i] = vdrv.Skip("may-compare-function-source-text") // excluded by the property
-			continue
-		}
-		if strings.Contains(ref, "=>") || strings.Contains(ref, "function") || strings.Contains(ref, "class ") || strings.Contains(ref, "class{") {
-			vs[i] = vdrv.Skip("observes-function-source-text") // excluded by the property
-			continue
-		}
+		// (function source text is hidden by the worker: Function.prototype.toString returns a constant in
+		// both runs, so comparisons and concatenations of functions need no special treatment)
 		if strings.HasPrefix(outs[i], "\x00ERROR ") {
 			v := vdrv.Fail("esbuild rejects a program V8 accepts: "+c.Code+": "+outs[i][7:], ref, outs[i][1:])
 			vs[i] = v
+			continue
+		}
+		if ref != got && outs[i] == reinitOutput(c.Opts) && dropCompletion(ref) == dropCompletion(got) {
+			// esbuild removed the whole statement as free of side effects (e.g. `!function(){}` is folded
+			// and dropped even without minification): the statement's completion value, which only an
+			// enclosing eval could see, is not part of the observable behaviour
+			vs[i] = vdrv.Pass(false, "ctx="+c.Ctx, "statement-dropped")
 			continue
 		}
 		if ref != got {
@@ -551,18 +552,27 @@ func judgeCtx(cases []CtxCase) []vdrv.Verdict {
 	return vs
 }
 
-// A relational or loose-equality operator applied to a function/arrow/class value compares the
-// function's source text, which the property excludes; such combinations are skipped statically.
-func mayCompareFunctionSource(code string) bool {
-	if !(strings.Contains(code, "=>") || strings.Contains(code, "function") || strings.Contains(code, "class")) {
-		return false
+var reinitOut = map[Opts]string{}
+
+// reinitOutput is what esbuild prints for the atom re-initialisation alone under the given options.
+func reinitOutput(o Opts) string {
+	if s, ok := reinitOut[o]; ok {
+		return s
 	}
-	for _, op := range []string{" < ", " <= ", " > ", " >= ", " == ", " != "} {
-		if strings.Contains(code, op) {
-			return true
-		}
+	r := api.Transform(jsgen.EnumReinit, o.api())
+	reinitOut[o] = string(r.Code)
+	return reinitOut[o]
+}
+
+// dropCompletion removes the completion value ("v:…") from a batch result, keeping thrown values and events.
+func dropCompletion(res string) string {
+	if !strings.HasPrefix(res, "v:") {
+		return res
 	}
-	return false
+	if i := strings.Index(res, " events:"); i >= 0 {
+		return res[i:]
+	}
+	return ""
 }
 
 func replayCtx(raw json.RawMessage) vdrv.Verdict {
